@@ -78,21 +78,17 @@ theorem postLayers_ne_nil : (e : Err) → postLayers e ≠ []
   | .second .. => by simp [postLayers]
   | .multi .. => by simp [postLayers]
 
-/-- the numbered entries of the verbose form, as the list of their `(n)` numbers and type names -/
-def typesLine (l : List Str) : Str :=
-  nl :: b!"Error types:" ++ (l.zipIdx.flatMap (fun (x : Str × Nat) => b!" (" ++ natStr (x.2 + 1) ++ b!") " ++ x.1))
-
 /-- `%+v` = the one-line rendering, then entry (1) for the outermost layer, one `Wraps: (n)` entry for
     each further layer in display order, then the `Error types` line naming the Go type of
-    every layer in the same order -/
+    every layer in the same order (as tokens; `render` is `unlex` of this) -/
 theorem C09_verbose_structure (red : Bool) (e : Err) :
     ∃ top rest,
       (ents red true e true false 0 []).1.reverse = top :: rest ∧
-      render red true e =
-        singleLine red (ents red true e true false 0 []).1 ++ nl :: b!"(1)" ++ printEntry red top ++
+      renderT red true e =
+        singleLine red (ents red true e true false 0 []).1 ++ bytesT (nl :: b!"(1)") ++ printEntry red top ++
         (rest.zipIdx.flatMap (fun (x : Entry × Nat) =>
-          [nl] ++ indentOf x.1.depth ++ b!"Wraps: (" ++ natStr (x.2 + 2) ++ b!")" ++ printEntry red x.1)) ++
-        typesLine ((displayLayers e).map tyS) := by
+          bytesT ([nl] ++ indentOf x.1.depth ++ b!"Wraps: (" ++ natStr (x.2 + 2) ++ b!")") ++ printEntry red x.1)) ++
+        bytesT (typesLineOf ((displayLayers e).map tyS)) := by
   have hlen := C09_entry_count red true e
   have hne : (ents red true e true false 0 []).1.reverse ≠ [] := by
     intro h
@@ -105,7 +101,10 @@ theorem C09_verbose_structure (red : Bool) (e : Err) :
     refine ⟨top, rest, rfl, ?_⟩
     have ht := C09_entry_per_layer red true e
     rw [hr] at ht
-    simp only [render, finish, fullOutput, hr, if_true, typesLine, ← ht]
-    simp [List.zipIdx_map, List.flatMap_map]
+    simp only [renderT, finish, fullOutput, hr, if_true, ← ht]
+
+/-- the `Error types:` line lists `(n) type` for every layer, numbered from 1 -/
+theorem typesLineOf_shape (l : List Str) :
+    typesLineOf l = nl :: b!"Error types:" ++ (l.zipIdx.flatMap (fun (x : Str × Nat) => b!" (" ++ natStr (x.2 + 1) ++ b!") " ++ x.1)) := rfl
 
 end ErrModel
